@@ -95,6 +95,44 @@ func init() {
 			cov["exhaustive_part"] = fmt.Sprintf("all %d histories of length <= %d per (shape, codec, page) were run", r.M.Counters["exhaustive_histories"], r.M.Maxes["max_exhaustive_history_length"])
 		},
 	})
+	addSpec(&Spec{ID: "C08", Title: "reading does not depend on how the source fragments its reads", Level: "fault_enumeration",
+		Shapes: portfolioMain,
+		Rule: "files = portfolio x 3 codecs x {single-page, multi-page, multi-row-group}; patterns = fixed chunk sizes (quick 1..17 + spread to 4096; thorough every 1..64,127,128,4095,4096), seeded random short reads, " +
+			"data-with-EOF (alone and with chunk 1/7), every k-th call short; oracle = rows and error equal to the full-read baseline; distinct = (file, pattern); non-trivial = at least one call returned fewer bytes than requested",
+		Require: []string{"short_reads", "pagedata_short_uncompressed", "pagedata_short_snappy", "pagedata_short_gzip"},
+	})
+	addSpec(&Spec{ID: "C09", Title: "a failed write to the destination is always reported", Level: "fault_enumeration",
+		Shapes: portfolioMain,
+		Rule: "workloads = portfolio x 3 codecs x {single-page, multi-page, multi-row-group}; for each, a fault-free run counts the sink writes N and then EVERY k in 0..N-1 is re-run with the k-th sink write failing, " +
+			"in modes transient (only call k fails), sticky and partial (n=len/2 with the error); oracle = the API call in progress returns non-nil, no panic; distinct = (workload, k, mode), all non-trivial",
+		Require:    []string{"site_leading_magic", "site_page_header", "site_page_body_required", "site_page_body_optional", "site_footer", "site_footer_length", "site_trailing_magic"},
+		Exhaustive: func(r *Run) bool { return true },
+		Extra: func(r *Run, cov map[string]interface{}) {
+			cov["exhaustive_note"] = "exhaustive over the fault position k for every workload listed (all sink writes of the fault-free run); workloads themselves are sampled"
+		},
+	})
+	addSpec(&Spec{ID: "C10", Title: "a failed read or seek never turns into silently wrong rows", Level: "fault_enumeration",
+		Shapes: portfolioMain,
+		Rule: "files as C08; a fault-free run counts the source calls N (Read and Seek; thrift reads byte-wise so N is in the thousands) and EVERY k in 0..N-1 is re-run with the k-th call failing, modes (0,err) and (partial,err), " +
+			"once with a full-read source and once under chunk-7 fragmentation; oracle = error reported by the constructor or Error(), or else rows exactly the file's rows; no panic; distinct = (file, frag, k, mode)",
+		Require: []string{"site_seek", "site_footer_length", "site_footer", "site_page_header", "site_page_body_uncompressed", "site_page_body_snappy", "site_page_body_gzip",
+			"outcome_ctor_error", "outcome_iteration_error"},
+		Exhaustive: func(r *Run) bool { return true },
+		Extra: func(r *Run, cov map[string]interface{}) {
+			cov["exhaustive_note"] = "exhaustive over the fault position k for every file listed; files are sampled"
+		},
+	})
+	addSpec(&Spec{ID: "C11", Title: "a truncated file is never accepted", Level: "fault_enumeration",
+		Shapes: portfolioMain,
+		Rule: "files as C08 (0.3-6 KiB): EVERY strict prefix (length 0..len-1) is opened and iterated; thorough adds 20-60 KiB files with every cut in the last 4 KiB, every page boundary +-8 bytes and 1500 seeded interior cuts; " +
+			"oracle = constructor or Error() reports an error, no panic; distinct = (file, cut); non-trivial = cut inside footer, trailer, page header, page body, at a page boundary or between row groups",
+		Require:    []string{"cut_footer", "cut_footer_length", "cut_trailer_magic", "cut_page_header", "cut_page_body", "cut_between_row_groups", "cut_page_boundary"},
+		Exhaustive: func(r *Run) bool { return true },
+		Extra: func(r *Run, cov map[string]interface{}) {
+			cov["exhaustive_note"] = "exhaustive over prefix lengths for every small file; large files (thorough) use the targeted cut set"
+		},
+		Assumptions: []string{"string values written by the workload never embed a complete Parquet file (a prefix ending in an embedded valid file is indistinguishable from a complete file)"},
+	})
 }
 
 func runCheck(prop, tier string, seed int64, only string) int {
